@@ -904,4 +904,48 @@ func (g *fnGen) packageStateObligations(st *state, ins ssa.Instruction) {
 		name := gl.Pkg.Pkg.Name() + "." + gl.Name()
 		g.oblige(st, "package-state", name, ins.Pos(), "", "false", "use of the mutable package-level variable "+name+" in a function declared no-package-state (state that outlives the VM / request it was computed for)")
 	}
+	// a helper of the same package (called directly, with no contract of its own) is part of the function
+	if ci, ok := ins.(ssa.CallInstruction); ok {
+		if callee := ci.Common().StaticCallee(); callee != nil && callee.Pkg != nil && callee.Pkg == g.fn.Pkg && g.P.cs.Funcs[callee.String()] == nil {
+			if via := g.P.mutableGlobalUsedBy(callee, map[*ssa.Function]bool{}); via != "" {
+				g.oblige(st, "package-state", shortName(callee.String())+" -> "+via, ins.Pos(), "", "false", "call of the helper "+shortName(callee.String())+", which uses the mutable package-level variable "+via+", in a function declared no-package-state")
+			}
+		}
+	}
+}
+
+// mutableGlobalUsedBy: the first mutable package-level variable of the module used by fn, its closures or the
+// contract-less functions of the same package it calls directly ("" if none).
+func (P *Prog) mutableGlobalUsedBy(fn *ssa.Function, seen map[*ssa.Function]bool) string {
+	if fn == nil || seen[fn] || len(seen) > 200 {
+		return ""
+	}
+	seen[fn] = true
+	for _, b := range fn.Blocks {
+		for _, ins := range b.Instrs {
+			if _, ok := ins.(*ssa.DebugRef); ok {
+				continue
+			}
+			for _, op := range ins.Operands(nil) {
+				if gl, ok := (*op).(*ssa.Global); ok && gl.Pkg != nil && strings.HasPrefix(gl.Pkg.Pkg.Path(), modulePath) {
+					if _, imm := P.immutable[gl]; !imm {
+						return gl.Pkg.Pkg.Name() + "." + gl.Name()
+					}
+				}
+			}
+			if ci, ok := ins.(ssa.CallInstruction); ok {
+				if callee := ci.Common().StaticCallee(); callee != nil && callee.Pkg != nil && callee.Pkg == fn.Pkg && P.cs.Funcs[callee.String()] == nil {
+					if via := P.mutableGlobalUsedBy(callee, seen); via != "" {
+						return via
+					}
+				}
+			}
+		}
+	}
+	for _, an := range fn.AnonFuncs {
+		if via := P.mutableGlobalUsedBy(an, seen); via != "" {
+			return via
+		}
+	}
+	return ""
 }
